@@ -1,6 +1,5 @@
 """C01 -- slim and native forms are exact, order-preserving inverses under any mask."""
 import itertools
-import os
 import numpy as np
 from harness.common import cz, cnat, cbool, clist, ctup, import_aa
 
@@ -39,9 +38,7 @@ TRUSTED = ["hand-written Gallina model coq/Model/C01.v of array_2d_util / grid_2
            "compared with copies taken before the call, `.array` of a constructed object = the form it was asked to store"]
 ASSUMPTIONS = ["values at UNMASKED pixels are finite reals (inf / NaN only at masked entries)",
                "complex / over-sampled variants are not modelled",
-               "default configuration (general.structures.native_binned_only = false)",
-               "Grid2D / VectorYX2D / Grid1D with inf / NaN at masked entries: behaviour after fixes/C01_grid_nonfinite_masked.diff "
-               "(C01_NONFINITE_GRIDS=0 leaves these inputs out)"]
+               "default configuration (general.structures.native_binned_only = false)"]
 
 def shapes_upto(n):
     return [(h, w) for h in range(1, n + 1) for w in range(1, n + 1) if h * w <= n]
@@ -58,9 +55,8 @@ def vals(h, w, k):
 
 SCALES = [0, 0, -40, 40]            # values are multiplied by 2**e (exact in binary floating point) and divided back
 KINDS = ["array", "grid", "vector"]
-# inf / NaN at MASKED entries of native inputs and of natively stored arrays.  Arrays: repaired in /repo e8113b3.  Grids / vector
-# fields / 1-D grids: repaired by fixes/C01_grid_nonfinite_masked.diff (pending); C01_NONFINITE_GRIDS=0 models the unrepaired code.
-NONFINITE_GRIDS = os.environ.get("C01_NONFINITE_GRIDS", "1") != "0"
+# inf / NaN at MASKED entries of native inputs and of natively stored arrays are part of the streams for all five classes
+# (zeroing is by assignment since /repo e8113b3 (arrays) and 6af65c9 (grids, vector fields, 1-D grids)).
 FORMS = [0, 0, 0, 1, 2, 3]          # entry form of the mask / of the values: see make_mask / give
 AFF = ["add", "radd", "sub", "rsub", "mul", "rmul", "neg", "copy"]
 
@@ -141,7 +137,7 @@ def gen_inputs(tier, rng):
             if all(all(r) for r in m): continue
             i += 1
             yield {"op": KINDS[i % 3], "m": m, "ni": bool(i & 1), "sn": bool(i & 2), "k": (i >> 2) % 4, "e": SCALES[(i >> 4) % 4],
-                   "mt": (i // 3) % 4, "vt": (i // 5) % 4, "nf": (i // 7) % 3 == 0 and (i % 3 == 0 or NONFINITE_GRIDS)}
+                   "mt": (i // 3) % 4, "vt": (i // 5) % 4, "nf": (i // 7) % 3 == 0}
             if big or i % 5 == 0:
                 yield {"op": "array", "m": m, "ni": not bool(i & 1), "sn": not bool(i & 2), "k": 1}
     for n in range(1, n1 + 1):
@@ -149,7 +145,7 @@ def gen_inputs(tier, rng):
             if all(bits): continue
             i += 1
             yield {"op": "array1d" if i % 3 else "grid1d", "r": list(bits), "ni": bool(i & 1), "sn": bool(i & 2), "e": SCALES[(i >> 2) % 4],
-                   "mt": (i // 3) % 4, "vt": (i // 5) % 4, "nf": (i // 7) % 3 == 0 and (i % 3 != 0 or NONFINITE_GRIDS)}
+                   "mt": (i // 3) % 4, "vt": (i // 5) % 4, "nf": (i // 7) % 3 == 0}
             yield {"op": "array1d", "r": list(bits), "ni": not bool(i & 1), "sn": bool(i & 4)}
     # ---- histories (phase 2): quick = every mask with H*W <= 6 gets an object history AND a mask history, the masks with
     #      H*W in {7, 8} get one of the two (alternating); thorough = two of each for every mask with H*W <= 10
@@ -163,7 +159,7 @@ def gen_inputs(tier, rng):
                 if both or i % 2 == 0:
                     cls = rng.choice(hk); sn = rng.random() < 0.6
                     yield {"op": "hist", "cls": cls, "m": m, "ni": rng.random() < 0.5, "sn": sn, "k": rng.randrange(4), "e": rng.choice(SCALES),
-                           "mt": rng.choice(FORMS), "vt": rng.choice(FORMS), "ops": gen_ops(rng, m, sn, cls != "array", nonfinite=cls == "array" or NONFINITE_GRIDS)}
+                           "mt": rng.choice(FORMS), "vt": rng.choice(FORMS), "ops": gen_ops(rng, m, sn, cls != "array")}
                 if both or i % 2 == 1:
                     yield {"op": "maskhist", "m": m, "ops": gen_mops(rng, m)}
     for n in range(1, nh + 1):
@@ -173,7 +169,7 @@ def gen_inputs(tier, rng):
             sn = rng.random() < 0.6; c1 = "array1d" if i % 3 else "grid1d"
             yield {"op": "hist", "cls": c1, "m": [list(bits)], "ni": rng.random() < 0.5, "sn": sn,
                    "k": rng.randrange(4), "e": rng.choice(SCALES), "mt": rng.choice(FORMS), "vt": rng.choice(FORMS),
-                   "ops": gen_ops(rng, [list(bits)], sn, False, nonfinite=c1 == "array1d" or NONFINITE_GRIDS)}
+                   "ops": gen_ops(rng, [list(bits)], sn, False)}
     for _ in range(1500 if big else 150):
         h, w = rng.randint(3, 12), rng.randint(3, 12)
         p = rng.choice([0.1, 0.3, 0.5, 0.8])
@@ -185,7 +181,7 @@ def gen_inputs(tier, rng):
         if not big and _ % 3: continue
         sn = rng.random() < 0.6; cls = rng.choice(hk)
         yield {"op": "hist", "cls": cls, "m": m, "ni": rng.random() < 0.5, "sn": sn, "k": rng.randint(0, 3), "e": rng.choice(SCALES),
-               "mt": rng.choice(FORMS), "vt": rng.choice(FORMS), "ops": gen_ops(rng, m, sn, cls != "array", nonfinite=cls == "array" or NONFINITE_GRIDS)}
+               "mt": rng.choice(FORMS), "vt": rng.choice(FORMS), "ops": gen_ops(rng, m, sn, cls != "array")}
         yield {"op": "maskhist", "m": m, "ops": gen_mops(rng, m)}
 
 def cmask(m): return clist([clist([cbool(b) for b in r]) for r in m])
